@@ -61,3 +61,67 @@ Proof.
 Qed.
 
 End Cache.
+
+(* ---------------------------------------------------------------- add_cpds sessions: the CPD found for a
+   variable after any sequence of add_cpds calls is the LAST one added for it (in-place replacement), or the
+   one that was there before when none was added. *)
+Section AddCpds.
+Variable K : fieldT.
+
+Lemma get_cpd_replace (c : cpd K) l l' v :
+  replace_cpd K c l = Some l' ->
+  get_cpd K l' v = if Nat.eqb (cvar c) v then Some c else get_cpd K l v.
+Proof.
+  revert l'; induction l as [|d r IH]; simpl; intros l' H; [discriminate|].
+  destruct (Nat.eqb (cvar d) (cvar c)) eqn:E.
+  - inversion H; subst. apply Nat.eqb_eq in E. unfold get_cpd. simpl. rewrite E.
+    destruct (Nat.eqb (cvar c) v); reflexivity.
+  - destruct (replace_cpd K c r) as [r'|] eqn:Er; [|discriminate]. inversion H; subst.
+    unfold get_cpd in *. simpl. specialize (IH r' eq_refl).
+    destruct (Nat.eqb (cvar d) v) eqn:Ed.
+    + destruct (Nat.eqb (cvar c) v) eqn:Ec; [|reflexivity].
+      apply Nat.eqb_eq in Ed. apply Nat.eqb_eq in Ec. rewrite Ed, <- Ec, Nat.eqb_refl in E. discriminate.
+    + exact IH.
+Qed.
+
+Lemma replace_cpd_None (c : cpd K) l : replace_cpd K c l = None -> get_cpd K l (cvar c) = None.
+Proof.
+  induction l as [|d r IH]; simpl; intros H; [reflexivity|].
+  destruct (Nat.eqb (cvar d) (cvar c)) eqn:E; [discriminate|].
+  destruct (replace_cpd K c r); [discriminate|]. apply IH. reflexivity.
+Qed.
+
+Lemma get_cpd_app l (c : cpd K) v :
+  get_cpd K (l ++ [c]) v = match get_cpd K l v with Some d => Some d | None => if Nat.eqb (cvar c) v then Some c else None end.
+Proof.
+  unfold get_cpd. induction l as [|d r IH]; simpl.
+  - destruct (Nat.eqb (cvar c) v); reflexivity.
+  - destruct (Nat.eqb (cvar d) v); [reflexivity|exact IH].
+Qed.
+
+Lemma get_cpd_add_cpd l (c : cpd K) v :
+  get_cpd K (add_cpd K l c) v = if Nat.eqb (cvar c) v then Some c else get_cpd K l v.
+Proof.
+  unfold add_cpd. destruct (replace_cpd K c l) as [l'|] eqn:E.
+  - apply get_cpd_replace. exact E.
+  - rewrite get_cpd_app. apply replace_cpd_None in E.
+    destruct (Nat.eqb (cvar c) v) eqn:Ec.
+    + apply Nat.eqb_eq in Ec. subst v. rewrite E. reflexivity.
+    + destruct (get_cpd K l v); reflexivity.
+Qed.
+
+Lemma find_app_ {A} (f : A -> bool) l1 l2 :
+  find f (l1 ++ l2) = match find f l1 with Some x => Some x | None => find f l2 end.
+Proof. induction l1 as [|a l1 IH]; simpl; [reflexivity|]. destruct (f a); [reflexivity|exact IH]. Qed.
+
+Lemma get_cpd_add_cpds cs : forall l v,
+  get_cpd K (add_cpds K l cs) v =
+  match find (fun c => Nat.eqb (cvar c) v) (rev cs) with Some c => Some c | None => get_cpd K l v end.
+Proof.
+  unfold add_cpds. induction cs as [|c cs IH]; intros l v; simpl; [reflexivity|].
+  rewrite IH. rewrite find_app_.
+  destruct (find (fun c0 => Nat.eqb (cvar c0) v) (rev cs)); [reflexivity|].
+  simpl. rewrite get_cpd_add_cpd. destruct (Nat.eqb (cvar c) v); reflexivity.
+Qed.
+
+End AddCpds.
